@@ -493,7 +493,27 @@ def rule_guard(T, rid):
             rets = set(cfg.return_blocks())
             guarded_before = any(cfg.dominates(c, bi) for c in checks)
             guarded_after = bool(checks) and not (cfg.reachable_from(bi, avoid=checks | mu.error_exit_blocks(f)) & rets) if checks else False
-            if guarded_before or guarded_after:
+            # the resize itself: count is reset to zero and the moved entries are counted again - at most as many as before,
+            # and the new capacity leaves a free slot (rule K of the same table decides that)
+            recount = False
+            for b2, blk2 in enumerate(f.blocks):
+                if not (cfg.dominates(b2, bi) and b2 != bi):
+                    continue
+                for st2 in blk2["stmts"]:
+                    if st2["k"] == "assign" and mu.field_path(st2["place"])[-1:] == ["count"] and st2["rv"]["k"] == "use" \
+                            and st2["rv"]["op"].get("k") == "const" and st2["rv"]["op"].get("val") == 0:
+                        recount = True
+                t2 = blk2["term"]
+                if t2["k"] == "call" and any(n_.endswith("mem::replace") for n_ in callee_names(t2["func"])) and len(t2["args"]) == 2 \
+                        and t2["args"][1].get("k") == "const" and t2["args"][1].get("val") == 0:
+                    a0 = op_local(t2["args"][0])
+                    if a0 is not None and mu.ref_of_field_chain(f, DefUse(f), a0, ["count"]):
+                        recount = True
+            in_loop = any(cfg.dominates(h, bi) for _s, h in cfg.back_edges())
+            if recount and in_loop:
+                res.append(ok(rid_full(P, rid), key, f.loc(st.get("ln")), "re-count of the entries moved by a resize (count was reset to 0 before the loop; "
+                              "the new capacity leaves a free slot: rule K)"))
+            elif guarded_before or guarded_after:
                 res.append(ok(rid_full(P, rid), key, f.loc(st.get("ln")), "count is incremented on a path that evaluates the growth condition"))
             else:
                 # private helper: all callers must be guarded (or be the rehash, whose capacity was just raised)
